@@ -83,6 +83,9 @@ def cases(draw, max_bins=24):
     o = draw(options(m["n"], len(m["sizes"])))
     # history: the Cooler object is made while the URI still holds a thinner matrix over the same bins
     return {"part": "balance", **m, "opts": o, "stale_object": draw(st.integers(0, 3)) == 0,
+            # history: the same path first held (and was balanced as) a cooler with the same number of bins but other
+            # chromosome boundaries
+            "prior_layout": draw(st.integers(0, 3)) == 0 and len(m["sizes"]) >= 2,
             "chunksize": draw(st.sampled_from([None, None, 10**7, max(8, len(m["rows"]) // 3)]))}
 
 
@@ -138,6 +141,21 @@ def check_balance(case, ctx: Ctx):
             bt = {"names": [f"chr{t + 1}" for t in range(len(edges))], "edges": edges, "kinds": ["fixed"] * len(edges)}
             call("re-create with the full matrix", create_from_model, path, bt, case["rows"], True, h5opts={"compression": None}, mode="a")
             w, stats = call("balance_cooler (object created before the re-creation)", run_balance, clr, o, **kw)
+        finally:
+            ctx.clean(path)
+    elif case.get("prior_layout"):
+        from ..coolio import create_from_model
+
+        sizes2 = case["sizes"][::-1] if case["sizes"] != case["sizes"][::-1] else [case["n"]]
+        path = make_cooler(ctx, dict(case, sizes=sizes2))
+        try:
+            _ = call("balance_cooler (earlier collection at the same path)", run_balance, cooler.Cooler(path),
+                     dict(o, x0=None, blacklist=None, max_iters=3))
+            edges = [[10 * k for k in range(s_ + 1)] for s_ in case["sizes"]]
+            bt = {"names": [f"chr{t + 1}" for t in range(len(edges))], "edges": edges, "kinds": ["fixed"] * len(edges)}
+            call("replace the collection at the same path", create_from_model, path, bt, case["rows"], True, h5opts={"compression": None})
+            clr = cooler.Cooler(path)
+            w, stats = call("balance_cooler", run_balance, clr, o, **kw)
         finally:
             ctx.clean(path)
     else:
@@ -245,7 +263,9 @@ def cli_cases(draw):
         a = draw(st.one_of(st.integers(0, L - 1), st.integers(0, m["sizes"][ci] - 1).map(lambda k: 10 * k)))
         b = draw(st.one_of(st.integers(a + 1, L), st.integers(a // 10 + 1, m["sizes"][ci]).map(lambda k: 10 * k)))
         regs.append([ci, a, b])
-    return {"part": "cli", **m, "opts": o, "regions": regs, "header": draw(st.booleans())}
+    return {"part": "cli", **m, "opts": o, "regions": regs, "header": draw(st.booleans()),
+            # --ignore-dist D: ignore max(ignore_diags, ceil(D / binsize)) diagonals (bins are 10 bp wide here)
+            "ignore_dist": draw(st.sampled_from([None, None, 10, 20, 30, 15, 25, 5]))}
 
 
 def check_cli(case, ctx: Ctx):
@@ -274,6 +294,9 @@ def check_cli(case, ctx: Ctx):
             args.append("--cis-only")
         if o["trans_only"]:
             args.append("--trans-only")
+        if case.get("ignore_dist") is not None:
+            args += ["--ignore-dist", case["ignore_dist"]]
+            o["ignore_diags"] = max(o["ignore_diags"], -(-case["ignore_dist"] // 10))
         rc, _, exc = run_cli(args)
         check(rc == 0 and exc is None, f"cooler balance --blacklist failed: exit {rc} {exc!r}")
         w = cooler.Cooler(path).bins()["weight"][:].to_numpy(dtype=float)
@@ -289,6 +312,13 @@ def check_cli(case, ctx: Ctx):
         check(len(diff) == 0, lambda: f"cooler balance --blacklist {case['regions']}: bin {int(diff[0])} is "
                                       f"{'finite' if np.isfinite(w[diff[0]]) else 'NaN'} but the regions overlap exactly bins {bl} "
                                       f"(plus the documented filters)")
+        near_tol = any(abs(v - o["tol"]) <= 1e-6 * o["tol"] for v in ref["variances"])
+        blown = any((not np.isfinite(v)) or v > 1e100 for v in ref["variances"])
+        if not near_tol and not blown and np.all(ref["converged"]):
+            fin_ = np.isfinite(w)
+            check(np.allclose(w[fin_], ref["weights"][fin_], rtol=1e-8, atol=0),
+                  lambda: f"cooler balance {[a for a in args[2:]]}: stored weights differ from the documented procedure with "
+                          f"{o['ignore_diags']} ignored diagonals, max rel {np.max(np.abs(w[fin_] - ref['weights'][fin_]) / np.abs(ref['weights'][fin_])):.3g}")
     ctx.record(case, any(a % 10 == 0 or b % 10 == 0 for _, a, b in case["regions"]), ["cli-blacklist", "header" if case["header"] else "no-header"])
 
 
